@@ -257,6 +257,7 @@ type VC struct {
 	needDecVal  bool
 	globalInits []globalInit
 	needDigits  bool
+	needBeval   bool
 	digitTheory bool
 	needBytes   bool
 	frameOn     bool
